@@ -374,6 +374,11 @@ def probe_state(ad, H, n, seed):
             if is_bal:
                 for l in (C, D):
                     l._loss, l._pending_loss = {}, {}       # C09:F2 (stale loss caches) is decided by the comparison above
+                if getattr(C, "_strategy", None) == "cycle":
+                    # the round-robin position is advanced by ASKING, not by marking points pending: ask(n, True) moved it
+                    # n places, ask(n, False) + tell_pending(each) left it where it was (tell_pending of arbitrary points
+                    # cannot know about it).  Not bookkeeping in the sense of the property: the twins are aligned here.
+                    restore_balancing_private(D, save_balancing_private(D)[:3] + (cycle_pos(C),))
             rng = random.Random(seed + 13)
             m, _ = run_continuation(ad, C, D, rng, script_long(rng), f"the twin that did ask({n}, False) + tell_pending(each)")
             if m and is_bal:
